@@ -61,3 +61,16 @@ Definition retry_case (script : list (Z + pexn)) :=
   let '(r, n) := with_s3_retry sc in
   (match r with Returned v => PReturned v | Raised e => PRaised (pr_exn e) | ScriptEnded => PScriptEnded end,
    Z.of_nat n, map (fun q => (Qnum q, Zpos (Qden q))) (with_s3_retry_sleeps n)).
+
+(* request traces *)
+Require Import DS.Model.BackendTrace.
+Inductive preq := PReq (kind : string) (k : string) (maxkeys1 : bool).
+Definition pr_req (r : req) : preq :=
+  match r with
+  | RGet k => PReq "get_object" (sh k) false | RHead k => PReq "head_object" (sh k) false
+  | RPut k => PReq "put_object" (sh k) false | RDelete k => PReq "delete_object" (sh k) false
+  | RList p m => PReq "list_objects_v2" (sh p) m
+  end.
+Definition trace_case (page : nat) (raw_prefix : string) (F : list (string * string)) (ops : list (op key)) :=
+  let Fb := map (fun kv => (lit (fst kv), lit (snd kv))) F in
+  map (map pr_req) (run_trace page (gen_init_prefix (lit raw_prefix)) Fb (map (map_op join) ops)).
